@@ -122,6 +122,8 @@ def _worker(args):
             res = mod.run_shard(shard)
     except Exception:  # harness error: never a VIOLATION
         return {"error": traceback.format_exc(), "shard": shard}
+    for d in res.deviations:
+        d["_shard"] = shard  # lets a history-dependent deviation be reproduced by re-running its shard
     return {
         "states": res.states,
         "transitions": res.transitions,
@@ -349,6 +351,17 @@ def do_replay(mod, path, quiet=False):
         warnings.simplefilter("ignore")
         devs = mod.replay(d["case"]) or []
     same = [x for x in devs if x["sig"] == d["sig"]] or devs
+    if not same and d.get("_shard") is not None:
+        # not reproducible in isolation: re-run the whole shard it came from (cold process, same order). If the same
+        # case deviates again the answer depends on what was asked BEFORE it - a history dependence, which violates the
+        # property concerned (and C10); the replay artefact is the shard prefix.
+        bootstrap.clear_global_caches()
+        with warnings.catch_warnings():
+            warnings.simplefilter("ignore")
+            res = mod.run_shard(d["_shard"])
+        same = [x for x in res.deviations if x["sig"] == d["sig"] and x["case"] == d["case"]]
+        if same and not quiet:
+            print(f"  (history-dependent: reproduces only after the earlier cases of shard {d['_shard']})")
     if same:
         if not quiet:
             for x in same[:5]:
